@@ -21,7 +21,8 @@ CONSTANTS StoreKeys,    \* keys that may hold versions
           ReadTs,       \* read timestamp of the transaction; 0 = the newest stored version
           Now,          \* clock value during the reads
           NSrc,         \* number of placement sources
-          NMixed,       \* number of mixed placement variants per store (besides the uniform ones)
+          NMixed,       \* number of mixed placement variants per store (besides the uniform ones);
+                        \* -1: every placement (all functions from the stored versions to the sources)
           PendKeys, PendKinds, MaxPend,   \* pending operations of the read-write transaction
           Queries       \* set of iterator option records evaluated for every case
 
@@ -87,7 +88,8 @@ QRes(o) == LET s == IterSeq(Full, o, Rts, Now) IN [i \in 1..Len(s) |-> Code(s[i]
 \* placements: variant v assigns the i-th stored version to source Src(i, v); variants
 \* 1..NSrc are uniform (everything in one source), the others mix sources
 Src(i, v) == IF v <= NSrc THEN v ELSE ((i * 3 + v * (i + 1) + v) % NSrc) + 1
-Placements == [v \in 1..(NSrc + NMixed) |-> [i \in 1..Len(store) |-> Src(i, v)]]
+Placements == IF NMixed >= 0 THEN [v \in 1..(NSrc + NMixed) |-> [i \in 1..Len(store) |-> Src(i, v)]]
+              ELSE SetToSeq([1..Len(store) -> 1..NSrc])
 
 QuerySeq == SetToSeq({o \in Queries : WellFormed(o)})
 Case == [store |-> store,
